@@ -86,9 +86,32 @@ func chooseTags(r *explore.Run, maxPerm int) []string {
 }
 
 func parent(i int, constraint string) v1beta1.LockPackage {
+	return parentAs(i, constraint, 0)
+}
+
+// depForms are the ways a parent can say what kind of package its dependency
+// is; the package the resolver creates must be of that kind.
+var depForms = []struct{ name, kind string }{
+	{"type-provider", "Provider"}, {"type-configuration", "Configuration"}, {"type-function", "Function"}, {"apiversion-kind-function", "Function"},
+}
+
+func parentAs(i int, constraint string, form int) v1beta1.LockPackage {
+	dep := v1beta1.Dependency{Package: depSrc, Constraints: constraint}
+	fnType := v1beta1.FunctionPackageType
+	switch form {
+	case 0:
+		dep.Type = &providerType
+	case 1:
+		dep.Type = &cfgType
+	case 2:
+		dep.Type = &fnType
+	case 3:
+		av, k := "pkg.crossplane.io/v1", "Function"
+		dep.APIVersion, dep.Kind = &av, &k
+	}
 	return v1beta1.LockPackage{
 		Name: fmt.Sprintf("parent%d-rev", i), Type: &cfgType, Source: fmt.Sprintf("xpkg.example.org/acme/parent%d", i), Version: "v1.0.0",
-		Dependencies: []v1beta1.Dependency{{Package: depSrc, Type: &providerType, Constraints: constraint}},
+		Dependencies: []v1beta1.Dependency{dep},
 	}
 }
 
@@ -146,8 +169,10 @@ func installBody(r *explore.Run, rep *report.R, sc string, ci, flags, maxPerm in
 	// nor to be touched.
 	const namesakeSrc, namesakeObj, namesakePkg = "registry.other.example/acme/dep", "other-registry-dep", "registry.other.example/acme/dep:v1.1.0"
 	namesake := r.Bool("namesake-in-another-registry")
-	r.Logf("install: constraint=%q tags=%v flags=%d namesake=%v", constraint, tags, flags, namesake)
-	lockPkgs := []v1beta1.LockPackage{parent(1, constraint)}
+	form := r.Free(len(depForms), "dependency-kind-form")
+	wantKey := depForms[form].kind + "/" + depObjName
+	r.Logf("install: constraint=%q tags=%v flags=%d namesake=%v dependency=%s", constraint, tags, flags, namesake, depForms[form].name)
+	lockPkgs := []v1beta1.LockPackage{parentAs(1, constraint, form)}
 	var existing []*unstructured.Unstructured
 	if namesake {
 		lockPkgs = append(lockPkgs, v1beta1.LockPackage{Name: "other-registry-dep-rev", Type: &providerType, Source: namesakeSrc, Version: "v1.1.0", Dependencies: []v1beta1.Dependency{}})
@@ -167,8 +192,8 @@ func installBody(r *explore.Run, rep *report.R, sc string, ci, flags, maxPerm in
 
 	got := ""
 	for k, p := range o.pkgs {
-		if k != "Provider/"+depObjName {
-			r.Failf("install/unexpected-package", "%s: resolver created %s (%s)", ctx, k, p)
+		if k != wantKey {
+			r.Failf("install/unexpected-package", "%s: resolver created %s (%s), the dependency is declared as %s", ctx, k, p, depForms[form].name)
 		}
 		got = versionOf(p, depSrc)
 		if got == "" {
@@ -188,7 +213,7 @@ func installBody(r *explore.Run, rep *report.R, sc string, ci, flags, maxPerm in
 	}
 	nt := ""
 	if !ref.nothing {
-		nt = report.Hash("install", constraint, fmt.Sprint(tags), namesake)
+		nt = report.Hash("install", constraint, fmt.Sprint(tags), namesake, form)
 	}
 	evalCase(rep, sc, report.Hash("install", got, o.resolved, o.err != nil), nt)
 	if nt != "" && len(tags) >= 3 && len(ref.tags) > 0 && wantSample(rep, "install") {
